@@ -512,10 +512,18 @@ func triggerCandidates(sc *Scenario, t *Truth) map[int]string {
 					}
 				}
 			}
+			// the supervisor acts on an exit once it has recorded the final state
+			when := in.ExitSeq
+			for _, tr := range t.Trans[rep] {
+				if tr.Seq > in.ExitSeq && isTerminalStatus(tr.State) {
+					when = tr.Seq
+					break
+				}
+			}
 			if p.Restart == "exit_on_failure" && in.Code != 0 {
-				evs = append(evs, ev{in.ExitSeq, in.Code, rep + " (exit_on_failure)", kill, true})
+				evs = append(evs, ev{when, in.Code, rep + " (exit_on_failure)", kill, true})
 			} else if p.ExitOnEnd {
-				evs = append(evs, ev{in.ExitSeq, in.Code, rep + " (exit_on_end)", kill, !restartOwed(p, in.Code, i)})
+				evs = append(evs, ev{when, in.Code, rep + " (exit_on_end)", kill, !restartOwed(p, in.Code, i)})
 			}
 		}
 	}
